@@ -37,7 +37,7 @@ func (c *CRLRevocationChecker) IsRevoked(clientCertificate *x509.Certificate, ve
 			c.logger.Warn("Failed to add CRL from CDP", zap.Strings("cdp", clientCertificate.CRLDistributionPoints), zap.Error(err))
 		} else {
 			if added && c.crlConfig.CDPConfig.CRLFetchModeParsed == config.CRLFetchModeBackground {
-				go c.updateCRLs(true)
+				go c.updateCRLsRecovering(true)
 			}
 		}
 
@@ -153,12 +153,24 @@ func (c *CRLRevocationChecker) initCRLUpdateTicker() {
 			case <-c.crlUpdateStop:
 				return
 			case <-c.crlUpdateTicker.C:
-				go c.updateCRLs(false)
+				go c.updateCRLsRecovering(false)
 			}
 		}
 	}()
 
 }
+
+// updateCRLsRecovering is the entry point for update goroutines: a panic while processing
+// what a CRL location returned must not take the whole server process down
+func (c *CRLRevocationChecker) updateCRLsRecovering(forceUpdate bool) {
+	defer func() {
+		if err := recover(); err != nil {
+			log.Printf("[PANIC] crl updater: %v\n%s", err, debug.Stack())
+		}
+	}()
+	c.updateCRLs(forceUpdate)
+}
+
 func (c *CRLRevocationChecker) updateCRLs(forceUpdate bool) {
 	crlUpdateMutex.Lock()
 	defer crlUpdateMutex.Unlock()
